@@ -59,8 +59,9 @@ static void choose_form(Rng &rng, Access &a, const MVar &v, const GenParams &gp,
     size_t nd = v.dimids.size();
     bool strided = false; for (auto s : a.stride) if (s != 1) strided = true;
     bool single = true; for (auto c : a.count) if (c != 1) single = false;
-    a.flexible = gp.all_forms && rng.chance(0.3); a.bufkind = a.flexible ? (int)rng.below(6) : 0;
+    a.flexible = gp.all_forms && rng.chance(0.3); a.bufkind = a.flexible ? (int)rng.below(8) : 0;
     a.memtype = pick_memtype(rng, v.type, gp);
+    a.erange = (gp.erange && !is_read && rng.chance(0.15)) ? (int)rng.below(64) : -1;
     a.imap.clear(); a.nstart.clear(); a.ncount.clear();
     if (nd == 0) { a.form = rng.chance(0.5) ? F_VAR1 : F_VARA; a.stride.clear(); return; }
     int form;
@@ -93,7 +94,7 @@ static void choose_form(Rng &rng, Access &a, const MVar &v, const GenParams &gp,
             std::vector<long long> s = a.start, ct = a.count; s[d] += off; ct[d] = len; off += len;
             a.nstart.push_back(s); a.ncount.push_back(ct);
         }
-        if (rng.chance(0.2)) { std::vector<long long> z(nd, 0); a.nstart.push_back(a.start); a.ncount.push_back(z); }   // a zero-length sub-request
+        if (rng.chance(0.2)) { std::vector<long long> z(nd, 0), zs = a.start; if (v.isrec && !is_read && rng.chance(0.5)) zs[0] = a.start[0] + a.count[0] + (long long)rng.below(4); a.nstart.push_back(zs); a.ncount.push_back(z); }   // a zero-length sub-request (for writes to record variables possibly beyond every record written: it must not count)
     }
     if (form == F_VARD) { a.flexible = true; if (a.bufkind == 4 || a.bufkind == 1) a.bufkind = 0; }
 }
@@ -283,10 +284,20 @@ Program gen_program(uint64_t seed, const GenParams &gp, const std::string &profi
                 else if (y < 0.65) { o.kind = OP_IGET; for (int r = 0; r < np; r++) { Access a = gen_region_access(rng, v, f.ranks[r].numrecs, true, false, gp); if (a.form == F_VARD) { a.form = F_VARS; a.flexible = false; } if (rng.chance(0.2)) a.active = false; o.acc.push_back(a); } if (emit(o)) pending++; }
                 else if (y < 0.92) {
                     o.kind = OP_WAIT; o.coll = !indep; o.waits.resize(np);
-                    for (int r = 0; r < np; r++) { WaitSpec &w = o.waits[r]; w.mode = rng.chance(0.45) ? 1 + (int)rng.below(3) : 0; if (rng.chance(0.1)) w.active = false;
+                    for (int r = 0; r < np; r++) { WaitSpec &w = o.waits[r]; w.mode = rng.chance(0.45) ? 1 + (int)rng.below(3) : rng.chance(0.2) ? 4 : 0; if (rng.chance(0.1)) w.active = false; if (rng.chance(0.2)) w.nostatus = true;
                         if (w.mode == 0) { int n = (int)rng.range(0, 5); for (int i = 0; i < n; i++) w.slots.push_back(rng.chance(0.08) ? -1 : (int)rng.below(12)); if (rng.chance(0.04)) { w.slots.assign(1 + rng.below(2), -2); } } }
                     if (emit(o)) { pending = 0; if (rng.chance(0.7)) { Op s; s.kind = OP_SYNCPOINT; s.file = fi; emit(s); } }
-                } else { o.kind = OP_CANCEL; o.waits.resize(np); for (int r = 0; r < np; r++) { WaitSpec &w = o.waits[r]; w.mode = rng.chance(0.3) ? 1 : 0; int n = (int)rng.range(0, 3); for (int i = 0; i < n; i++) w.slots.push_back((int)rng.below(12)); } emit(o); }
+                } else {
+                    o.kind = OP_CANCEL; o.waits.resize(np); bool stack_case = false;
+                    for (int r = 0; r < np; r++) {
+                        WaitSpec &w = o.waits[r]; w.mode = rng.chance(0.3) ? 1 : 0; int n = (int)rng.range(0, 3); for (int i = 0; i < n; i++) w.slots.push_back((int)rng.below(12));
+                        // attached-buffer stack scenario: cancel (by id) a buffered put that is not the last one posted, then post another one while the later one is still pending
+                        std::vector<int> bp; for (int s2 = 0; s2 < (int)f.ranks[r].reqs.size(); s2++) if (f.ranks[r].reqs[s2].live && f.ranks[r].reqs[s2].kind == K_BPUT) bp.push_back(s2);
+                        if (bp.size() >= 2 && rng.chance(0.5)) { w.mode = 0; w.slots.assign(1, bp[rng.below(bp.size() - 1)]); stack_case = true; }
+                    }
+                    bool ok = emit(o);
+                    if (ok && stack_case && f.ranks[0].abuf && rng.chance(0.7)) { Op b2; b2.file = fi; b2.var = (int)rng.below(f.vars.size()); b2.kind = OP_BPUT; gen_partitioned(rng, f.vars[b2.var], f.numrecs, np, false, gp, b2.acc); for (auto &a : b2.acc) if (a.form == F_VARD) { a.form = F_VARS; a.flexible = false; } if (emit(b2)) pending++; }
+                }
             } else if (x < 0.95 && gp.redef) {
                 o.kind = OP_REDEF;
                 if (emit(o)) {
